@@ -6,13 +6,76 @@ import time
 
 from lib import *
 
+import concurrent.futures
+import random
+import shutil
+import subprocess
+import tempfile
+
+C1 = """#!/bin/bash
+n=$(cat "$VERIF_OUT/counter" 2>/dev/null || echo 0); n=$((n+1)); echo $n > "$VERIF_OUT/counter"
+cat "$VERIF_OUT/$n.out"; cp "$VERIF_OUT/$n.code" "$VERIF_OUT/last.code"; exit $(cat "$VERIF_OUT/$n.code")
+"""
+CN = """#!/bin/bash
+exit $(cat "$VERIF_OUT/last.code" 2>/dev/null || echo 0)
+"""
+
+
+def e2e_update(r):
+    """the real `scrut update --replace --assume-yes` on the document, with commands that produce the outputs of the record"""
+    root = tempfile.mkdtemp(prefix="scrut-verif-upd-", dir=os.environ.get("VERIF_SCRATCH", "/tmp"))
+    try:
+        bindir, outdir = os.path.join(root, "bin"), os.path.join(root, "out")
+        os.makedirs(bindir); os.makedirs(outdir); os.makedirs(os.path.join(root, "tmp"))
+        for name, body in (("c1", C1), ("c2", CN), ("c3", CN), ("x", CN)):
+            with open(os.path.join(bindir, name), "w") as f:
+                f.write(body)
+            os.chmod(os.path.join(bindir, name), 0o755)
+        for n, o in enumerate(r["outputs"]):
+            with open(os.path.join(outdir, f"{n + 1}.out"), "wb") as f:
+                f.write(bytes(o["stdout"]))
+            with open(os.path.join(outdir, f"{n + 1}.code"), "w") as f:
+                f.write(str(o["code"]))
+        doc = os.path.join(root, "doc.md")
+        original = "\n".join(l["txt"] for l in r["lines"]) + "\n"
+        with open(doc, "w") as f:
+            f.write(original)
+        env = dict(os.environ, TMPDIR=os.path.join(root, "tmp"), NO_COLOR="1", VERIF_OUT=outdir, PATH=bindir + ":" + os.environ.get("PATH", ""))
+        env.pop("SCRUT_VERIF_TRACE", None)
+        esc = ["--escaping", r["escaper"].lower()]
+
+        def scrut(args):
+            with open(os.path.join(outdir, "counter"), "w") as f:
+                f.write("0")
+            return subprocess.run([SCRUT_BIN] + args, cwd=root, env=env, stdout=subprocess.PIPE, stderr=subprocess.PIPE, timeout=60)
+        u1 = scrut(["update", "--no-color", "--replace", "--assume-yes"] + esc + [doc])
+        after1 = open(doc, errors="replace").read()
+        u2 = scrut(["update", "--no-color", "--replace", "--assume-yes"] + esc + [doc])
+        after2 = open(doc, errors="replace").read()
+        t = scrut(["test", "--no-color", "-r", "json", doc])
+        problems = []
+        if u1.returncode != 0:
+            problems.append(f"update exits {u1.returncode}: {u1.stderr.decode('utf-8', 'replace')[-160:]}")
+        if after1 != r["updated"]:
+            problems.append("file written by the CLI differs from the update generator's result for the same outcomes")
+        if after2 != after1:
+            problems.append("second `scrut update` changed the file again")
+        if t.returncode != 0:
+            problems.append(f"`scrut test` on the updated file exits {t.returncode}")
+        return {"ok": not problems, "problems": problems, "file_after_update": after1}
+    except subprocess.TimeoutExpired:
+        return {"ok": False, "problems": ["timeout"], "file_after_update": ""}
+    finally:
+        shutil.rmtree(root, ignore_errors=True)
+
+
 WHAT = "update changed something outside the failing expectations (or is not idempotent / changed the commands / crashed)"
 
 
 def run(prop, tier, replay=None):
     t0 = time.time()
     work = workdir(f"{prop}-{tier}")
-    build_s = build()
+    build_s = build(need_scrut_bin=True)
     V = Verdicts(prop)
     s = seed()
     cov = {}
@@ -37,6 +100,19 @@ def run(prop, tier, replay=None):
     records = read_ndjson(rpath)
     if not records:
         raise ToolError("no document was usable for update")
+    # end to end sample: the real `scrut update --replace -y` with commands that produce the record's outputs; a failure
+    # makes the record's observation fail (idempotent / reparse_passes), so that TLC reports it
+    rnd = random.Random(s * 17 + 3)
+    good = [r for r in records if r["obs"]["result"] == "ok" and r["obs"]["decomposed"] and r["obs"]["idempotent"] and r["obs"]["reparse_passes"]
+            and all(sg["term"] for sg in r["segs"]) and not any("@U@" in l["txt"] or "a\u00fc" in l["txt"] for l in r["lines"])]
+    sample = good if replay else rnd.sample(good, min(len(good), 60 if tier == "quick" else 800))
+    with concurrent.futures.ThreadPoolExecutor(max_workers=min(NCPU, 12)) as ex:
+        for r, e in zip(sample, ex.map(e2e_update, sample)):
+            r["e2e"] = e
+            if not e["ok"]:
+                r["obs"]["idempotent"] = False
+                r["obs"]["detail"] = "end to end: " + "; ".join(e["problems"])
+    cov["end_to_end_update_runs"] = len(sample)
     results, printed = tlc_validate_sharded("UpdateTrace", "UpdateTrace.cfg", records, work, shards=min(NCPU, 12),
                                             slim=lambda r: {k: r[k] for k in ("ev", "id", "lines", "segs", "outcomes", "chunks", "obs")},
                                             tags=("VERDICT", "TOOL"))
@@ -61,6 +137,8 @@ def run(prop, tier, replay=None):
             why = "commands-changed"
         elif not o["reparse_passes"]:
             why = "updated-test-does-not-pass"
+        elif "e2e" in r and not r["e2e"]["ok"]:
+            why = "end-to-end:" + r["e2e"]["problems"][0][:60]
         elif not o["idempotent"]:
             why = "not-idempotent"
         else:
